@@ -1,0 +1,132 @@
+//! Verification hooks, compiled only with the cargo feature `verif_hooks` (off by default).
+//!
+//! Everything in here is inert until an external simulator installs a callback or lowers the CPU mask:
+//! with nothing installed, `sched_point` is one relaxed load and a branch, `feature` returns the real
+//! detection result, and the probes are relaxed counters that nothing reads.
+
+use std::sync::atomic::{AtomicPtr, AtomicU32, AtomicU64, Ordering};
+
+/// CPU capability bits used by [`set_cpu_mask`] and reported by `simd_entry`.
+pub const CPU_SSE41: u32 = 1;
+pub const CPU_AVX: u32 = 2;
+pub const CPU_FMA: u32 = 4;
+pub const CPU_AVX2: u32 = 8;
+
+static SCHED_HOOK: AtomicPtr<()> = AtomicPtr::new(std::ptr::null_mut());
+static CPU_MASK: AtomicU32 = AtomicU32::new(!0);
+static ABOVE_HOST: AtomicU32 = AtomicU32::new(0);
+static SIMD_ENTRIES: [AtomicU64; 16] = [ZERO64; 16];
+
+#[allow(clippy::declare_interior_mutable_const)]
+const ZERO64: AtomicU64 = AtomicU64::new(0);
+
+/// Installs (or removes) the callback invoked at every scheduling point inside the chunk iteration helpers.
+pub fn set_sched_hook(f: Option<fn(u32)>) {
+    let p = match f {
+        Some(f) => f as *mut (),
+        None => std::ptr::null_mut(),
+    };
+    SCHED_HOOK.store(p, Ordering::Relaxed);
+}
+
+#[inline]
+pub(crate) fn sched_point(site: u32) {
+    let p = SCHED_HOOK.load(Ordering::Relaxed);
+    if !p.is_null() {
+        // Safety: the only non-null values ever stored come from a `fn(u32)` in `set_sched_hook`
+        let f: fn(u32) = unsafe { std::mem::transmute::<*mut (), fn(u32)>(p) };
+        f(site);
+    }
+}
+
+/// Scheduling point in front of a chunk function call, plus the reach probe saying which kind of call it is
+#[inline]
+pub(crate) fn chunk_point(site: u32, probe_id: usize) {
+    probe(probe_id);
+    sched_point(site);
+}
+
+/// Restricts what `is_x86_feature_detected!` reports inside this crate. A mask can only hide features
+/// the real CPU has, never add one. The default (`!0`) hides nothing.
+pub fn set_cpu_mask(mask: u32) {
+    CPU_MASK.store(mask, Ordering::Relaxed);
+}
+pub fn cpu_mask() -> u32 {
+    CPU_MASK.load(Ordering::Relaxed)
+}
+
+fn feature_bit(name: &str) -> u32 {
+    match name {
+        "sse4.1" => CPU_SSE41,
+        "avx" => CPU_AVX,
+        "fma" => CPU_FMA,
+        "avx2" => CPU_AVX2,
+        _ => 0,
+    }
+}
+
+/// Used by the crate-level `is_x86_feature_detected!` shadow macro: the real answer AND the mask.
+#[inline]
+pub fn feature(name: &str, real: bool) -> bool {
+    let bit = feature_bit(name);
+    real && (bit == 0 || CPU_MASK.load(Ordering::Relaxed) & bit != 0)
+}
+
+/// Called at the entry of every SIMD kernel wrapper with the feature set the wrapper was compiled for.
+/// Records an "above host level" event when the simulated host lacks one of them.
+#[inline]
+pub(crate) fn simd_entry(required: u32) {
+    SIMD_ENTRIES[(required & 15) as usize].fetch_add(1, Ordering::Relaxed);
+    let missing = required & !CPU_MASK.load(Ordering::Relaxed);
+    if missing != 0 {
+        ABOVE_HOST.fetch_or(missing, Ordering::Relaxed);
+    }
+}
+
+/// Returns and clears the set of feature bits that some SIMD kernel required although the mask hid them.
+pub fn take_above_host() -> u32 {
+    ABOVE_HOST.swap(0, Ordering::Relaxed)
+}
+
+/// Number of SIMD kernel wrapper entries so far, indexed by required feature set (bit-or of `CPU_*`).
+pub fn simd_entry_counts() -> [u64; 16] {
+    let mut out = [0u64; 16];
+    for (o, c) in out.iter_mut().zip(SIMD_ENTRIES.iter()) {
+        *o = c.load(Ordering::Relaxed);
+    }
+    out
+}
+
+/// Reach probes: "this rare branch was taken" counters.
+pub const PROBE_NAMES: [&str; 16] = [
+    "avx.plan_fft.cache_hit",
+    "avx.replan.cache_base",
+    "avx.replan.cached_radix_tail",
+    "avx.replan.uncached",
+    "scalar.build_fft.cache_hit",
+    "scalar.build_fft.cache_miss",
+    "sse.build_fft.cache_hit",
+    "sse.build_fft.cache_miss",
+    "avx.raders.portable_fallback",
+    "avx.bluestein_planned",
+    "unroll2x.pair",
+    "unroll2x.tail",
+    "iter.chunk",
+    "avx.column_butterflies.partial_remainder",
+    "avx.no_avx2_heuristic",
+    "reserved",
+];
+static PROBES: [AtomicU64; 16] = [ZERO64; 16];
+
+#[inline]
+pub(crate) fn probe(id: usize) {
+    PROBES[id & 15].fetch_add(1, Ordering::Relaxed);
+}
+
+pub fn probe_counts() -> Vec<(&'static str, u64)> {
+    PROBE_NAMES
+        .iter()
+        .zip(PROBES.iter())
+        .map(|(n, c)| (*n, c.load(Ordering::Relaxed)))
+        .collect()
+}
